@@ -7,7 +7,7 @@ size / constructor are (max of starts, min of ends) / max(0, end-start) / (start
 overflow at the ends of the int range, nor std::list.
 """
 from .. import expr as E
-from .C41 import around, cmp_leaf, compared_consts, is_ref, loop_head, short, table, truth
+from .C41 import around, cmp_leaf, compared_consts, fold, is_ref, loop_head, short, table, truth
 
 MAXF, MINF = {"max", "std::max"}, {"min", "std::min"}
 
@@ -57,7 +57,9 @@ def run(ck):
 
     # ---------------------------------------------------------------- Range<int>
     ck.rule("G1 Range<int>(s, e) stores s in start and e in end; Range<int>::size() is max(0, end - start) on every ordering of start and end")
-    ctor = [f for f in facts.fns("Range::Range") if f.tmpl == 2 and len(f.params) == 2 and "<int" in f.full]
+    inst = lambda name, np=None: ([f for f in facts.fns(name) if f.tmpl == 2 and "<int" in f.full and (np is None or len(f.params) == np)]
+                                  or [f for f in facts.fns(name) if f.tmpl == 1 and (np is None or len(f.params) == np)])   # the <int> instantiation, else the template pattern
+    ctor = inst("Range::Range", 2)
     ck.need(len(ctor) == 1, "C43: Range<int>(int,int) constructor not found in the facts (is src/base/Range.h still in units.HDR_CFG?)")
     ctor = ctor[0]
     inits = {E.strip(ev["lhs"])["m"].split("::")[-1]: (E.strip(ev.get("rhs")) or {}) for b in ctor.blocks.values() for ev in b["ev"] if ev.get("e") == "asg" and E.strip(ev["lhs"]).get("k") == "mem"}
@@ -67,7 +69,7 @@ def run(ck):
             ck.ok("G1.range-ctor", ctor.where(), "Range(s,e): %s = argument %d" % (f, i))
         else:
             ck.violation("G1.range-ctor", "G1|Range-ctor|%s" % f, ctor.where(), "Range<int>'s constructor stores %s in %s, not its argument %d" % (inits[f]["d"], f, i))
-    size = [f for f in facts.fns("Range::size") if f.tmpl == 2 and "<int" in f.full]
+    size = inst("Range::size")
     ck.need(len(size) == 1, "C43: Range<int>::size not found")
     size = size[0]
     own = lambda g: (lambda t: g.get(field(t, "this")) if field(t, "this") else None)
@@ -75,7 +77,7 @@ def run(ck):
           lambda g, end, x: ival(ck, x, own(g), "Range::size") if end == "ret" else "?", "Range<int>::size")
 
     ck.rule("G2 Range<int>::intersection(rhs) returns Range(max(start, rhs.start), min(end, rhs.end)) on every ordering of the four bounds (max/min: compat templates, by name)")
-    isect = [f for f in facts.fns("Range::intersection") if f.tmpl == 2 and "<int" in f.full]
+    isect = inst("Range::intersection")
     ck.need(len(isect) == 1 and len(isect[0].params) == 1, "C43: Range<int>::intersection not found")
     isect = isect[0]
     RHS = isect.params[0]["d"]
@@ -105,9 +107,155 @@ def run(ck):
           lambda g: (max(g["this.start"], g["rhs.start"]), min(g["this.end"], g["rhs.end"])), cls_isect, "Range<int>::intersection",
           pure=lambda ev: ev.get("e") == "decl" or (ev.get("e") == "call" and (E.strip(ev["x"]).get("f") in MAXF | MINF or E.strip(ev["x"]).get("k") == "ctor")))
 
+    # ---------------------------------------------------------------- a concrete interpreter for the two ACLIntRange bodies
+    cont = inst("Range::contains")
+
+    class Interp(object):
+        """straight-line interpreter over ints and Range<int> values ([start, end] lists; references alias), driven by fold() under one row of a table.
+        Range::intersection and Range::size are evaluated by the reference semantics G1/G2 establish for the real functions; Range::contains is
+        evaluated by folding the real function."""
+
+        def __init__(self, what, ints=None, lst=None, hook=lambda it, ev: None, extra=lambda it, t: None):
+            self.what, self.env, self.lst, self.elem = what, dict(ints or {}), [list(x) for x in (lst or [])], None
+            self.hook, self.extra, self.rejected, self.members = hook, extra, 0, set()
+
+        def is_list(self, o):
+            f = field(o, "this")
+            o = E.strip(o)
+            if f is None and isinstance(o, dict) and o.get("k") == "ref" and o.get("d", "").startswith("__range"):
+                return True
+            if f is not None and "list" in (o.get("t") or ""):
+                self.members.add(f)
+                return True
+            return False
+
+        def look(self, t):
+            k = t.get("k")
+            if k == "ref":
+                v = self.env.get(t.get("d"))
+                return v if isinstance(v, int) and not isinstance(v, bool) else None
+            if k == "mem" and t["m"].split("::")[-1] in ("start", "end"):
+                r = self.rng(t.get("b"))
+                return None if r is None else r[0 if t["m"].endswith("start") else 1]
+            if k == "call" and short(t) == "size" and "o" in t and not t.get("a"):
+                r = self.rng(t["o"])
+                return None if r is None else max(0, r[1] - r[0])
+            return None
+
+        def num(self, t):
+            return ival(ck, t, self.look, self.what)
+
+        def rng(self, t):
+            t = E.strip(t)
+            if not isinstance(t, dict):
+                return None
+            k, a = t.get("k"), t.get("a", [])
+            if k == "ref":
+                v = self.env.get(t.get("d"))
+                return v if isinstance(v, list) else None
+            if k in ("ctor", "init") and t.get("f", "Range::Range") == "Range::Range":
+                if len(a) == 2:
+                    v = [self.num(x) for x in a]
+                    return None if None in v else v
+                if len(a) == 1:
+                    r = self.rng(a[0])
+                    return None if r is None else list(r)
+            if k == "call" and "o" in t:
+                f = short(t)
+                if f == "intersection" and len(a) == 1:
+                    x, y = self.rng(t["o"]), self.rng(a[0])
+                    return None if x is None or y is None else [max(x[0], y[0]), min(x[1], y[1])]
+                if f in ("back", "front") and not a and self.is_list(t["o"]) and self.lst:
+                    return self.lst[-1 if f == "back" else 0]
+                if f == "operator*" and E.strip(t["o"]).get("d", "").startswith("__begin"):
+                    return self.elem
+            return None
+
+        def contains(self, r, v):
+            ck.need(len(cont) == 1 and len(cont[0].params) == 1, "C43: Range::contains not found")
+            ck.need(r[0] <= r[1], "%s: Range::contains on an inverted range (assert)" % self.what)
+            fn = cont[0]
+            P = fn.params[0]["d"]
+            look = lambda t: (r[0 if field(t, "this") == "start" else 1] if field(t, "this") in ("start", "end") else (v if is_ref(t, P) else None))
+            leaf = int_leaf(ck, look, "Range::contains")
+            end, x = fold(ck, fn, fn.entry, leaf, "Range::contains")
+            ck.need(end == "ret", "C43: Range::contains does not return")
+            return truth(ck, x, leaf, "Range::contains")
+
+        def bool_leaf(self, t):
+            t = E.strip(t)
+            if isinstance(t, dict) and t.get("k") == "call" and "o" in t:
+                f, a = short(t), t.get("a", [])
+                if f == "contains" and len(a) == 1:
+                    r, v = self.rng(t["o"]), self.num(a[0])
+                    return None if r is None or v is None else self.contains(r, v)
+                if f == "empty" and not a and self.is_list(t["o"]):
+                    return not self.lst
+            return self.extra(self, t)
+
+        def leaf(self):
+            return int_leaf(ck, self.look, self.what, self.bool_leaf)
+
+        def event(self, ev):
+            h = self.hook(self, ev)
+            if h is not None:
+                return h
+            k = ev.get("e")
+            if k == "decl":
+                init = ev.get("init")
+                if init is None or ev["d"].startswith("__"):
+                    return True
+                r = self.rng(init)
+                if r is not None:
+                    self.env[ev["d"]] = r if (ev.get("t") or "").rstrip().endswith("&") else list(r)
+                    return True
+                n = self.num(init)
+                if n is not None:
+                    self.env[ev["d"]] = n
+                    return True
+                return False
+            if k == "asg" and ev.get("op") == "=":
+                lhs = E.strip(ev["lhs"])
+                n = self.num(ev.get("rhs"))
+                if lhs.get("k") == "ref" and lhs.get("dk") == "local" and n is not None:
+                    self.env[lhs["d"]] = n
+                    return True
+                if lhs.get("k") == "mem" and lhs["m"].split("::")[-1] in ("start", "end") and n is not None:
+                    r = self.rng(lhs.get("b"))
+                    if r is not None:
+                        r[0 if lhs["m"].endswith("start") else 1] = n
+                        return True
+                r = self.rng(ev.get("rhs"))
+                if lhs.get("k") == "ref" and lhs.get("dk") == "local" and r is not None and isinstance(self.env.get(lhs["d"]), list):
+                    self.env[lhs["d"]][:] = r
+                    return True
+                return False
+            if k == "call":
+                x = E.strip(ev["x"])
+                f, a = short(x), x.get("a", [])
+                if x.get("k") == "ctor" or f in ("intersection", "size", "contains", "operator*", "operator++", "operator!=", "operator==") or (x.get("f") in MAXF | MINF and "o" not in x):
+                    return True
+                if f in ("empty", "back", "front", "begin", "end", "cbegin", "cend") and not a and self.is_list(x.get("o")):
+                    return True
+                if f == "self_destruct":
+                    self.rejected += 1
+                    return True
+                if f in ("push_back", "emplace_back") and len(a) == 1 and self.is_list(x.get("o")):
+                    r = self.rng(a[0])
+                    if r is None:
+                        return False
+                    self.lst.append(list(r))
+                    return True
+            return False
+
+    DOM = range(-3, 40)
+    cover = lambda rs: frozenset(v for v in DOM for r in rs if r[0] <= v < r[1])
+    show = lambda c: "{%s}" % ",".join(str(v) for v in sorted(c)) if not isinstance(c, str) else c
+
     # ---------------------------------------------------------------- ACLIntRange::parse
-    ck.rule("P1 ACLIntRange::parse, per token: with port1 = xatos(token), port2 = xatos(text after '-') or port1 when there is no '-', the list member receives "
-            "Range(port1, port2 + 1) exactly when port2 >= port1 and otherwise nothing (self_destruct()); table over dash x orderings of the two numbers")
+    ck.rule("P1 ACLIntRange::parse, per token: with port1 = xatos(token), port2 = xatos(text after '-') or port1 when there is no '-', the integers the list "
+            "covers afterwards are those it covered before plus [port1, port2] exactly when port2 >= port1, and otherwise the token is rejected (self_destruct()); table over "
+            "dash x orderings of the two numbers x earlier list contents (none, overlapping, enclosing, disjoint)")
     pr = facts.fn("ACLIntRange::parse")
     tok = lambda t: E.strip(t).get("k") == "call" and E.strip(t).get("f") == "ConfigParser::strtokFile"
     head = loop_head(ck, pr, lambda b: any(e.get("e") == "decl" and tok(e.get("init") or {}) for e in b["ev"]), "ACLIntRange::parse")
@@ -118,93 +266,57 @@ def run(ck):
     dashes = [n for n, ds in pdefs.items() if any(short(d) == "strchr" and is_ref(E.strip(d)["a"][0], TOK) and E.const(E.strip(d)["a"][1]) == 45 for d in ds)]
     ck.need(len(dashes) == 1, "C43: parse has no local holding strchr(token, '-')")
     DASH = dashes[0]
-    env, pushed, rejected, members = {}, [], [], set()
-
-    def plook(g):
-        def look(t):
-            if t.get("k") == "ref" and t.get("dk") == "local" and t["d"] in env:
-                src = env[t["d"]]
-                return src if isinstance(src, int) else (g["first"] if src == "first" else (g["second"] if src == "second" else None))
-            return None
-        return look
-
-    def step(g):
-        def on_event(ev):
-            k = ev.get("e")
-            if k == "decl":
-                init = E.strip(ev.get("init"))
-                if isinstance(init, dict) and init.get("k") == "ctor" and init.get("f") == "Range::Range" and len(init.get("a", [])) == 2:
-                    env[ev["d"]] = tuple(ival(ck, a, plook(g), "parse") for a in init["a"])
-                return True
-            if k == "asg":
-                lhs, rhs = E.strip(ev["lhs"]), E.strip(ev.get("rhs"))
-                if E.root_decl(lhs) == ("ref", DASH):
-                    return True                                   # '*b = 0; ++b': splitting the token text (not modelled)
-                if lhs.get("k") == "ref" and lhs.get("dk") == "local" and ev.get("op") == "=" and isinstance(rhs, dict):
-                    if short(rhs) == "xatos" and len(rhs.get("a", [])) == 1 and (is_ref(rhs["a"][0], TOK) or is_ref(rhs["a"][0], DASH)):
-                        env[lhs["d"]] = "first" if is_ref(rhs["a"][0], TOK) else "second"
-                        return True
-                    if rhs.get("k") == "ref" and rhs.get("d") in env:
-                        env[lhs["d"]] = env[rhs["d"]]
-                        return True
-                    if E.const(rhs) is not None:
-                        env[lhs["d"]] = E.const(rhs)
-                        return True
-                return False
-            if k == "call":
-                x = E.strip(ev["x"])
-                f = short(x)
-                if f in ("strchr", "xatos") or x.get("k") == "ctor":
-                    return True
-                if f == "self_destruct":
-                    rejected.append(1)
-                    return True
-                if f in ("push_back", "emplace_back", "push_front") and field(x.get("o"), "this") and len(x.get("a", [])) == 1:
-                    a = E.strip(x["a"][0])
-                    v = env.get(a.get("d")) if a.get("k") == "ref" else None
-                    if not (isinstance(v, tuple) and None not in v):
-                        return False
-                    members.add(field(x["o"], "this"))
-                    pushed.append(v)
-                    return True
-            return False
-        return on_event
-
-    # fold() takes one `pure` callback; rebuild the interpreter state for every row
+    members = set()
     state = {}
 
+    def parse_hook(it, ev):
+        g = state["g"]
+        k = ev.get("e")
+        if k == "decl" and ev["d"] == DASH:
+            return True
+        if k == "asg":
+            lhs, rhs = E.strip(ev["lhs"]), E.strip(ev.get("rhs"))
+            if E.root_decl(lhs) == ("ref", DASH):
+                return True                                   # '*b = 0; ++b': splitting the token text (not modelled)
+            if lhs.get("k") == "ref" and lhs.get("dk") == "local" and ev.get("op") == "=" and short(rhs) == "xatos" and len(rhs.get("a", [])) == 1:
+                if is_ref(rhs["a"][0], TOK) or is_ref(rhs["a"][0], DASH):
+                    it.env[lhs["d"]] = g["first"] if is_ref(rhs["a"][0], TOK) else g["second"]
+                    return True
+                return False
+        if k == "call" and short(ev["x"]) in ("strchr", "xatos"):
+            return True
+        return None
+
     def leaf_of(g):
-        env.clear(); del pushed[:]; del rejected[:]
         state["g"] = g
-        return int_leaf(ck, plook(g), "ACLIntRange::parse", lambda t: g["dash"] if is_ref(t, DASH) else None)
+        state["it"] = it = Interp("ACLIntRange::parse", lst=PREV[g["prev"]], hook=parse_hook, extra=lambda it, t: g["dash"] if is_ref(t, DASH) else None)
+        return it.leaf()
 
     def cls_parse(g, end, x):
+        it = state["it"]
+        members.update(it.members)
         if end != "back":
             return "?"
-        return ("push",) + tuple(pushed) if pushed else ("reject" if rejected else "nothing")
+        return "reject" if it.rejected else show(cover(it.lst))
+    PREV = {"none": [], "overlap": [[4, 6]], "enclosing": [[0, 9]], "disjoint": [[20, 30]], "two": [[1, 2], [5, 8]]}
+
+    def want_parse(g):
+        last = g["second"] if g["dash"] else g["first"]
+        return show(cover(PREV[g["prev"]] + [[g["first"], last + 1]])) if last >= g["first"] else "reject"
     number = lambda t: E.strip(t).get("k") == "ref" and E.strip(t).get("dk") == "local" and E.strip(t)["d"] not in (TOK, DASH)
     nums = around([0, 3, 5, 7], compared_consts(pr, number), lo=0)       # 0: plain truth tests compare with zero
-    table(ck, "P1.parse-table", pr, body, {"dash": [True, False], "first": nums, "second": [0, 5]}, leaf_of,
-          lambda g: ("push", (g["first"], (g["second"] if g["dash"] else g["first"]) + 1)) if (not g["dash"] or g["second"] >= g["first"]) else "reject",
-          cls_parse, "ACLIntRange::parse", stop=(head["id"],), pure=lambda ev: step(state["g"])(ev))
+    table(ck, "P1.parse-table", pr, body, {"dash": [True, False], "first": nums, "second": [0, 5, 7], "prev": sorted(PREV)}, leaf_of, want_parse,
+          cls_parse, "ACLIntRange::parse", stop=(head["id"],), pure=lambda ev: state["it"].event(ev))
     ck.need(len(members) == 1, "C43: parse stores into %s" % sorted(members))
-    LIST = members.pop()
+    LIST = sorted(members)[0]
 
     # ---------------------------------------------------------------- ACLIntRange::match
-    ck.rule("A1 ACLIntRange::match(i): the probe is Range(i, i + 1); the loop runs over the list member parse() fills; each element is intersected with the probe; "
-            "table {intersection.size() non-zero: return true; zero: next element; list exhausted: return false}")
+    ck.rule("A1 ACLIntRange::match(i): the loop runs over the list member parse() fills; per element [start, end) the body returns true exactly when start <= i < end "
+            "and otherwise moves to the next element (table over every ordering of i against both bounds; written with intersection()/size() or with contains(), "
+            "the helpers are evaluated by their G1/G2 semantics resp. by folding Range::contains itself); list exhausted: return false")
     mt = facts.fn("ACLIntRange::match")
     I = mt.params[0]["d"]
     mdefs = ck.local_defs(mt)
-    probes = [(n, E.strip(ds[0])) for n, ds in mdefs.items() if len(ds) == 1 and E.strip(ds[0]).get("k") == "ctor" and E.strip(ds[0]).get("f") == "Range::Range" and len(E.strip(ds[0]).get("a", [])) == 2]
-    ck.need(len(probes) == 1, "C43: match has no single Range probe")
-    PROBE, pc = probes[0]
-    pv = tuple(ival(ck, a, lambda t: 5 if is_ref(t, I) else None, "match") for a in pc["a"])
-    ck.need(None not in pv, "C43: match probe bounds are unrecognised: %s" % E.key(pc))
-    if pv == (5, 6):
-        ck.ok("A1.probe", mt.where(), "match: probe = Range(%s, %s + 1)" % (I, I))
-    else:
-        ck.violation("A1.probe", "A1|match|probe-bounds", mt.where(), "ACLIntRange::match(%s) probes %s, i.e. [%d,%d) for %s = 5, instead of [5,6)" % (I, E.key(pc), pv[0], pv[1], I))
     head = loop_head(ck, mt, lambda b: True, "ACLIntRange::match")
     over = {field(ds[0], "this") for n, ds in mdefs.items() if n.startswith("__range") and len(ds) == 1}
     ck.need(len(over) == 1 and None not in over, "C43: match does not iterate over a member")
@@ -212,24 +324,35 @@ def run(ck):
         ck.ok("A1.same-list", mt.where(), "match iterates over %s, the member parse() fills" % LIST)
     else:
         ck.violation("A1.same-list", "A1|match|list-member", mt.where(), "ACLIntRange::match iterates over %s but parse() fills %s" % (sorted(over), LIST))
-    elems = [n for n, ds in mdefs.items() if len(ds) == 1 and short(ds[0]) == "operator*" and E.strip(E.strip(ds[0]).get("o")).get("d", "").startswith("__begin")]
-    ck.need(len(elems) == 1, "C43: match has no loop element")
-    ELEM = elems[0]
-    isects = [(n, E.strip(ds[0])) for n, ds in mdefs.items() if len(ds) == 1 and E.strip(ds[0]).get("k") == "call" and E.strip(ds[0]).get("f") == "Range::intersection"]
-    ck.need(len(isects) == 1, "C43: match has no single intersection()")
-    RES, ic = isects[0]
-    ops = sorted([E.key(ic.get("o")), E.key(ic["a"][0])])
-    if ops == sorted([ELEM, PROBE]):
-        ck.ok("A1.intersection-roles", mt.where(), "match: %s = %s.intersection(%s)" % (RES, ELEM, PROBE))
-    else:
-        ck.violation("A1.intersection-roles", "A1|match|intersection-operands", mt.where(), "ACLIntRange::match intersects %s, not the list element with the probe" % ops)
+    probes = [(n, E.strip(ds[0])) for n, ds in mdefs.items() if len(ds) == 1 and E.strip(ds[0]).get("k") == "ctor" and E.strip(ds[0]).get("f") == "Range::Range" and len(E.strip(ds[0]).get("a", [])) == 2]
+    if len(probes) == 1:
+        PROBE, pc = probes[0]
+        pv = tuple(ival(ck, a, lambda t: 5 if is_ref(t, I) else None, "match") for a in pc["a"])
+        ck.need(None not in pv, "C43: match probe bounds are unrecognised: %s" % E.key(pc))
+        if pv == (5, 6):
+            ck.ok("A1.probe", mt.where(), "match: probe = Range(%s, %s + 1)" % (I, I))
+        else:
+            ck.violation("A1.probe", "A1|match|probe-bounds", mt.where(), "ACLIntRange::match(%s) probes %s, i.e. [%d,%d) for %s = 5, instead of [5,6)" % (I, E.key(pc), pv[0], pv[1], I))
+    # the straight-line prelude (probe construction, range-for setup) is replayed for every row before the body is folded
+    prelude, bid = [], mt.entry
+    while bid != head["id"]:
+        b = mt.blocks[bid]
+        ck.need(len(b["succ"]) == 1, "C43: match branches before its loop")
+        prelude += b["ev"]
+        bid = b["succ"][0]["to"]
     body = [s["to"] for s in head["succ"] if s.get("lab") == "T"][0]
     after = [s["to"] for s in head["succ"] if s.get("lab") == "F"][0]
-    nz = lambda g: (lambda t: ("n", g["size"]) if (short(t) == "size" and is_ref(E.strip(t).get("o"), RES)) else None)
-    loop_ev = lambda ev: ev.get("e") == "decl" or (ev.get("e") == "call" and short(ev["x"]) in ("operator*", "operator++", "intersection", "size"))
+    mstate = {}
+
+    def mleaf(g):
+        mstate["it"] = it = Interp("ACLIntRange::match", ints={I: g["i"]})
+        it.elem = [g["start"], g["end"]]
+        for ev in prelude:
+            ck.need(it.event(ev), "ACLIntRange::match: unrecognised statement before the loop: %s" % E.key(ev.get("x") or ev.get("init") or ev.get("lhs") or {})[:100])
+        return it.leaf()
     cls = lambda g, end, x: "next" if end == "back" else ("?" if end != "ret" or E.const(x) is None else ("true" if E.const(x) else "false"))
-    table(ck, "A1.match-table", mt, body, {"size": [0, 1, 2]}, lambda g: cmp_leaf(nz(g)), lambda g: "true" if g["size"] else "next", cls, "ACLIntRange::match/element",
-          stop=(head["id"],), pure=loop_ev)
+    table(ck, "A1.match-table", mt, body, {"start": [3, 5], "end": [5, 6, 8], "i": list(range(1, 11))}, mleaf, lambda g: "true" if g["start"] <= g["i"] < g["end"] else "next",
+          cls, "ACLIntRange::match/element", stop=(head["id"],), pure=lambda ev: mstate["it"].event(ev), skip=lambda g: g["start"] >= g["end"])
     table(ck, "A1.match-table", mt, after, {"exhausted": [True]}, lambda g: cmp_leaf(lambda t: None), lambda g: "false", cls, "ACLIntRange::match/exhausted", pure=lambda ev: False)
 
     ck.assume("decides the parse/match/Range<int> decision tables over representatives of every ordering of the integers involved (values are touched only through "
